@@ -586,6 +586,20 @@ func init() {
 			i := len(wps) - 1
 			pairs = append(pairs, [2]int{i, rng.Intn(len(named))}, [2]int{rng.Intn(len(named)), i}, [2]int{i, i - 1})
 		}
+		// the same illuminant at luminance levels whose ratio is a power of two (the XYZ vectors are then exactly
+		// proportional) and at other ratios
+		for k, base := range []ciexyy.Color{ciexyy.D65, ciexyy.D50, xy(0.44757, 0.40745)} {
+			for _, yy := range []float32{1, 2, 0.5, 0.25, 3} {
+				w := base
+				w.YY = yy
+				wps = append(wps, w)
+				names = append(names, "level")
+				i := len(wps) - 1
+				if yy != 1 {
+					pairs = append(pairs, [2]int{i, i - 1}, [2]int{i - 1, i}, [2]int{i, k % len(named)})
+				}
+			}
+		}
 		minResp := func(w ciexyy.Color) float64 {
 			r := bf.apply(xyzRef(w))
 			return math.Min(math.Abs(r[0]), math.Min(math.Abs(r[1]), math.Abs(r[2])))
@@ -654,6 +668,29 @@ func init() {
 				c.res.Streams["mat_adapt"]++
 				if canon(m) != canon(matHex(M)) {
 					c.res.mismatch(Mismatch{Stream: "mat_adapt", Input: in, Impl: matHex(M), Model: m})
+				}
+			}
+		}
+		// white points given directly as XYZ (the xyY constructor never produces some of them: an exactly neutral
+		// (k,k,k), exact multiples): white-to-white and the float64 Bradford matrix
+		xyzWhites := []ciexyz.Color{{X: 1, Y: 1, Z: 1}, {X: 0.5, Y: 0.5, Z: 0.5}, {X: 2, Y: 2, Z: 2}, ciexyz.D65, ciexyz.D50, {X: 1.9284, Y: 2, Z: 1.6502}, {X: 0.95047, Y: 1, Z: 1.08883},
+			{X: 0.475235, Y: 0.5, Z: 0.544415}, {X: 1.09850, Y: 1, Z: 0.35585}, {X: 0.9, Y: 1, Z: 0.9}}
+		for i, a := range xyzWhites {
+			for j, b := range xyzWhites {
+				if (i+2*j)%3 == 2 {
+					continue
+				}
+				ad := ciexyz.AdaptBetweenXYZWhitePoints(a, b)
+				in := map[string]interface{}{"from_xyz": a, "to_xyz": b}
+				c.res.count("xyz-pair", fmt.Sprint(a, b), true)
+				sa, sb := bf.apply([3]float64{float64(a.X), float64(a.Y), float64(a.Z)}), bf.apply([3]float64{float64(b.X), float64(b.Y), float64(b.Z)})
+				ref := bfi.mul(m3{{sb[0] / sa[0], 0, 0}, {0, sb[1] / sa[1], 0}, {0, 0, sb[2] / sa[2]}}).mul(bf)
+				if d := maxDiff(fromCols(matrix.Matrix3(ad)), ref); d > 1e-6*math.Max(1, ref.norm()) {
+					c.res.fail(Failure{Class: "C12:bradford", Desc: "adaptation matrix (XYZ constructor) differs from the independent float64 Bradford matrix", Input: in, Got: fmt.Sprint(fromCols(matrix.Matrix3(ad))), Want: fmt.Sprint(ref)})
+				}
+				got := ad.Apply(a)
+				if math.Abs(float64(got.X-b.X)) > 1e-6*math.Max(1, float64(b.X)) || math.Abs(float64(got.Y-b.Y)) > 1e-6*math.Max(1, float64(b.Y)) || math.Abs(float64(got.Z-b.Z)) > 1e-6*math.Max(1, float64(b.Z)) {
+					c.res.fail(Failure{Class: "C12:white-to-white", Desc: "source white (given as XYZ) is not mapped onto the destination white within 1e-6", Input: in, Got: fmt.Sprint(got), Want: fmt.Sprint(b)})
 				}
 			}
 		}
